@@ -105,7 +105,7 @@ Theorem reject_too_many_G : forall st ns net name fields rest ty id rules,
   no_empty_ns name = true ->
   match_type G (last_str (split_on DOT name)) = Some (ty, id) ->
   In (ty, rules) (g_dict G) -> max_params rules < length fields ->
-  parse_cpt G st ns net name fields rest = Err ETooMany.
+  parse_cpt G st ns net name fields rest = Err ETooMany \/ parse_cpt G st ns net name fields rest = Err EUnknownKw.
 Proof.
   intros st ns net name fields rest ty id rules Hn Hm Hin Hmax.
   assert (Hd : assoc_get ty (g_dict G) = Some rules) by (apply assoc_get_in; [vm_compute; reflexivity|exact Hin]).
